@@ -55,6 +55,11 @@ def run(ctx):
     # file size == header + records x row length needs the mapped file truncated and re-sized on every run
     from . import c17, c15
     c17.open_rules(dep(ctx, "C14", "C17"))
+    fmw_ = ctx.view(MMAP)
+    if fmw_ is not None:
+        rule_output_always_created(dep(ctx, "C14", "C17"), "C17.W", fmw_, "oligo::vectorise_mmap")   # 0 records: header only
+    from . import c06
+    c06.reader_deps(ctx, "C14")           # "records" in the size equation = what the statistics pass and the reader agree on
     # fixed-width rows assume finite values: the divisor guard (max(1, total)) is part of this property's argument
     fo = ctx.view("composition::oligo::OligoComputer::vectorise_one")
     if fo is not None:
